@@ -418,7 +418,9 @@ Definition op_key (o : op) : list Z :=
 Definition op_wsize (v : variant) (o : op) : list (Z * Z) :=
   match norm v o with Set_ k _ s | SetAndGetRemoved k _ s | SetIfAbsent k _ s => [(k, s)] | _ => [] end.
 Definition is_write_op (o : op) : bool := match o with Set_ _ _ _ | SetAndGetRemoved _ _ _ | SetIfAbsent _ _ _ | Delete _ => true | _ => false end.
-Definition churn_keys (progs : list (list op)) : list Z := nodup Z.eq_dec (flat_map op_key (concat progs)).
+(* duplicates removed, the last occurrence of each key kept *)
+Definition zdedup (l : list Z) : list Z := fold_right (fun k acc => if zmem k acc then acc else k :: acc) [] l.
+Definition churn_keys (progs : list (list op)) : list Z := zdedup (flat_map op_key (concat progs)).
 (* the largest size ever written to k *)
 Definition kbound (v : variant) (ops : list op) (k : Z) : Z :=
   fold_right Z.max 0 (map snd (filter (fun p => fst p =? k) (flat_map (op_wsize v) ops))).
@@ -429,7 +431,7 @@ Definition churn_dom (v : variant) (cap0 : Z) (wide : option (Z * option (list (
   && forallb (fun o => match o with Clear | SetCapacity _ => false | _ => true end) ops
   (* a key is written by at most one goroutine (others may read it) *)
   && forallb (fun k => (length (filter (fun p => zmem k (flat_map op_key (filter is_write_op p))) progs) <=? 1)%nat)
-       (nodup Z.eq_dec (flat_map op_key (filter is_write_op ops)))
+       (zdedup (flat_map op_key (filter is_write_op ops)))
   && (zsum (map (kbound v ops) (churn_keys progs)) <=? cap)
   && match wide with Some (n, _) => (1 <=? n) && (cap0 <? B) | None => true end.
 
